@@ -371,7 +371,13 @@ func (i *Interpreter) Exec(ctx context.Context, bs match.Bindings, props core.St
 		if _, is := err.(*goja.InterruptedError); is {
 			return nil, Interrupted
 		}
-		return nil, err
+		// The text of a script's exception comes from script
+		// code (the thrown value's toString), which can throw
+		// or be interrupted in turn: get the text now, while
+		// that can still be recovered from (and while the
+		// watcher above is in place), rather than leave it to
+		// whoever calls Error() later.
+		return nil, plainError(err)
 	}
 
 	// Exporting the returned value runs script code (property
@@ -420,6 +426,21 @@ func canonicalize(x interface{}) (interface{}, error) {
 		return nil, err
 	}
 	return y, nil
+}
+
+// plainError returns an error that has the given error's text and
+// doesn't run any code to produce it.
+func plainError(err error) (plain error) {
+	defer func() {
+		if r := recover(); r != nil {
+			if _, is := r.(*goja.InterruptedError); is {
+				plain = Interrupted
+			} else {
+				plain = errors.New("script error (the thrown value could not be rendered)")
+			}
+		}
+	}()
+	return errors.New(err.Error())
 }
 
 func RunProgram(o *goja.Runtime, p *goja.Program) (v goja.Value, err error) {
